@@ -588,6 +588,10 @@ func Run(t *simkit.Tape, o *simkit.Outcome, full bool) {
 		}
 		s.Expr, _ = model.GenExprAny(t, env)
 	}
+	if s.M && t.Bool(1, 2) {
+		// -m is about serialising subtrees: select elements that have some
+		s.Expr = []string{"//*", "/*", "/*/*", "//*[*]", "//node()", "//*[*/*]"}[t.Pick(3, 3, 2, 2, 1, 1)]
+	}
 	if len(s.Vars) > 0 && t.Bool(1, 3) {
 		// expressions whose output shows the variable's exact value
 		s.Expr = []string{"concat('[', $s, ']')", "string-length($s)", "$s", "//*[. = $s]", "//*[contains(., $s)]", "translate($s, ' ', '_')", "//@*[. = $s]"}[t.Draw(7)]
